@@ -110,6 +110,40 @@ def check(ctx):
                    f"fragment {norm(fr)} is interpolated into the JSON text unescaped ({k[4:]}): a value containing '\"' or '\\' "
                    f"yields a file that is not valid JSON",
                    clause="the written file is valid JSON for arbitrary member names and values")
+    # the separator between features is chosen by POSITION (a counter against the length), not by comparing feature values:
+    # a feature equal to the last one would lose its comma
+    for c in writes:
+        arg = c.args[0] if c.args else None
+        if not isinstance(arg, ast.JoinedStr):
+            continue
+        for fv in [v.value for v in arg.values if isinstance(v, ast.FormattedValue) and isinstance(v.value, ast.Name)]:
+            for d in defs_reaching(w, fv.id, c):
+                v = d.value
+                if not (isinstance(v, ast.IfExp) and isinstance(v.body, ast.Constant) and isinstance(v.orelse, ast.Constant)
+                        and {v.body.value, v.orelse.value} == {",", ""}):
+                    continue
+                loop = None
+                p_ = w.module.parent.get(d.node.ast) if d.node is not None else None
+                while p_ is not None and p_ is not w.node:
+                    if isinstance(p_, ast.For):
+                        loop = p_
+                        break
+                    p_ = w.module.parent.get(p_)
+                if loop is None:
+                    continue
+                tnames = {n.id for n in ast.walk(v.test) if isinstance(n, ast.Name)}
+                tgt = loop.target
+                counter = None
+                item_names = {n.id for n in ast.walk(tgt) if isinstance(n, ast.Name)}
+                if isinstance(tgt, ast.Tuple) and isinstance(loop.iter, ast.Call) and norm(loop.iter.func) == "enumerate" and isinstance(tgt.elts[0], ast.Name):
+                    counter = tgt.elts[0].id
+                    item_names -= {counter}
+                by_value = bool(tnames & item_names)
+                ctx.ob("TNT-json", w, f"separator {norm(v)[:60]}", d.node.ast, not by_value,
+                       "the comma is decided by the feature's position" if not by_value else
+                       f"the comma after a feature is decided by comparing the feature itself ({norm(v.test)}): a feature equal to the last one "
+                       f"(same properties and geometry) gets no comma, and the file is not valid JSON",
+                       clause="the written file is valid JSON")
     ctx.count("dynamic fragments", n_frag, 6)
     # ---------------------------------------------------------------- SIB-16
     def const_list(name):
